@@ -25,7 +25,8 @@ impl CountMinSketch {
             return Err(TinyLFUError::InvalidCountMinWidth(ctrs));
         }
 
-        let ctrs = next_power_of_2(ctrs);
+        // two 4-bit counters share a byte: a row needs at least 2 counters (1 byte)
+        let ctrs = next_power_of_2(ctrs).max(2);
         let hctrs = ctrs / 2;
 
         let timestamp = SystemTime::now()
